@@ -101,6 +101,16 @@ def classes(impl, G):
     out.append(('segment from point list', 'all points identical', lambda: get_segment_from_point_list([P(p), P(p), Point(*pe)])))
     nc = [p, q, add(p, cross(d, V(1, 2, 3)) if not is0(cross(d, V(1, 2, 3))) else V(0, 1, 0))]
     out.append(('segment from point list', 'non-collinear points', lambda: get_segment_from_point_list([P(x) for x in nc])))
+    # the off-line point anywhere in the list and anywhere ALONG the line (before, between, beyond the collinear ones), with one or
+    # two collinear points besides the first two
+    off = cross(d, V(1, 2, 3)) if not is0(cross(d, V(1, 2, 3))) else V(0, 1, 0)
+    for t_off in (F(1, 2), F(-1), F(5, 2), R.choice([F(1, 4), F(3, 4), F(2)])):
+        col = [p, add(p, d), add(p, mul(R.choice([F(3), F(2), F(-2)]), d))][:R.choice([2, 3])]
+        bad = add(add(p, mul(t_off, d)), mul(R.choice([F(1), F(1, 4), F(-2)]), off))
+        lst = list(col)
+        lst.insert(R.randint(0, len(lst)), bad)
+        out.append(('segment from point list', 'non-collinear points (off-line point at parameter %s along the line, position %d of %d)' % (t_off, lst.index(bad), len(lst)),
+                    lambda lst=lst: get_segment_from_point_list([P(x) for x in lst])))
     # move with a non-Vector
     objs = {}
     fr = G.frame()
